@@ -121,6 +121,13 @@ type dump struct {
 type inst struct {
 	exec func(o op) string // canonical result of one operation ("?unsupported" if the type lacks it)
 	dump func() dump
+	// several live containers / caller-held results
+	keyArrayWrite func() string   // KeyArray()/GetArray(): the keys, then the caller overwrites the returned slice
+	openEnum      func()          // take Entries()/Keys() enumerators now …
+	drainEnum     func() string   // … drain them later (the container is not modified in between)
+	toBytes       func() []byte   // IntIntLinkedMap / LongLongLinkedMap
+	toObjectBytes func(b []byte)  // ToObject of another map's bytes
+	keySetWrite   func() string   // IntKeyLinkedMap.GetKeySet()/ToKeySet(): the keys, then the caller modifies the returned set
 }
 
 const enumSlack = 8
@@ -147,6 +154,8 @@ type objAPI[K any] struct {
 	toK                     func(key) K
 	kTok                    func(K) string
 	less                    func(a, b K) bool
+	openKeys    func() func() []K
+	openEntries func() func() []interface{}
 }
 
 type kvGetter[K any] interface {
@@ -324,9 +333,24 @@ func newLinkedMap(c ctor) *inst {
 			}
 			return out
 		},
+		openKeys: func() func() []hmap.LinkedKey {
+			en := m.Keys()
+			return func() []hmap.LinkedKey {
+				var out []hmap.LinkedKey
+				for _, x := range drainEnum(en, m.Size()) {
+					lk, _ := x.(hmap.LinkedKey)
+					out = append(out, lk)
+				}
+				return out
+			}
+		},
 		keyArray: m.KeyArray,
 		values:   func() []interface{} { return drainEnum(m.Values(), m.Size()) },
 		entries:  func() []interface{} { return drainEnum(m.Entries(), m.Size()) },
+		openEntries: func() func() []interface{} {
+			en := m.Entries()
+			return func() []interface{} { return drainEnum(en, m.Size()) }
+		},
 		toK:      func(k key) hmap.LinkedKey { return &hk{id: k.i, mode: c.hmode} }, kTok: objKeyTok, less: lessObj}
 	return a.inst()
 }
@@ -344,9 +368,17 @@ func newIntKeyLinkedMap(c ctor) *inst {
 		removeFirst: m.RemoveFirst, removeLast: m.RemoveLast, isEmpty: m.IsEmpty, isFull: m.IsFull, clear: m.Clear,
 		setMax: func(n int) { m.SetMax(n) }, sort: m.Sort,
 		keys:     func() []int32 { return drainInt(m.Keys(), m.Size()) },
+		openKeys: func() func() []int32 {
+			en := m.Keys()
+			return func() []int32 { return drainInt(en, m.Size()) }
+		},
 		keyArray: m.KeyArray,
 		values:   func() []interface{} { return drainEnum(m.Values(), m.Size()) },
 		entries:  func() []interface{} { return drainEnum(m.Entries(), m.Size()) },
+		openEntries: func() func() []interface{} {
+			en := m.Entries()
+			return func() []interface{} { return drainEnum(en, m.Size()) }
+		},
 		toK:      toI32, kTok: i32Tok, less: lessI32}
 	return a.inst()
 }
@@ -364,9 +396,17 @@ func newLongKeyLinkedMap(c ctor) *inst {
 		removeFirst: m.RemoveFirst, removeLast: m.RemoveLast, isEmpty: m.IsEmpty, isFull: m.IsFull, clear: m.Clear,
 		setMax: func(n int) { m.SetMax(n) }, sort: m.Sort,
 		keys:     func() []int64 { return drainLong(m.Keys(), m.Size()) },
+		openKeys: func() func() []int64 {
+			en := m.Keys()
+			return func() []int64 { return drainLong(en, m.Size()) }
+		},
 		keyArray: m.KeyArray,
 		values:   func() []interface{} { return drainEnum(m.Values(), m.Size()) },
 		entries:  func() []interface{} { return drainEnum(m.Entries(), m.Size()) },
+		openEntries: func() func() []interface{} {
+			en := m.Entries()
+			return func() []interface{} { return drainEnum(en, m.Size()) }
+		},
 		toK:      toI64, kTok: i64Tok, less: lessI64}
 	return a.inst()
 }
@@ -379,9 +419,17 @@ func newStringKeyLinkedMap(c ctor) *inst {
 		removeFirst: m.RemoveFirst, removeLast: m.RemoveLast, isEmpty: m.IsEmpty, isFull: m.IsFull, clear: m.Clear,
 		setMax: func(n int) { m.SetMax(n) }, sort: m.Sort,
 		keys:     func() []string { return drainStr(m.Keys(), m.Size()) },
+		openKeys: func() func() []string {
+			en := m.Keys()
+			return func() []string { return drainStr(en, m.Size()) }
+		},
 		keyArray: m.KeyArray,
 		values:   func() []interface{} { return drainEnum(m.Values(), m.Size()) },
 		entries:  func() []interface{} { return drainEnum(m.Entries(), m.Size()) },
+		openEntries: func() func() []interface{} {
+			en := m.Entries()
+			return func() []interface{} { return drainEnum(en, m.Size()) }
+		},
 		toK:      toStr, kTok: strTok, less: lessStr}
 	return a.inst()
 }
@@ -411,6 +459,8 @@ type numAPI[K any, W any] struct {
 	less                              func(a, b K) bool
 	toW                               func(int64) W
 	wTok                              func(W) string
+	openKeys    func() func() []K
+	openEntries func() func() []interface{}
 }
 
 type kwGetter[K any, W any] interface {
@@ -529,8 +579,16 @@ func newIntIntLinkedMap(c ctor) *inst {
 		firstValue: m.GetFirstValue, lastValue: m.GetLastValue, remove: m.Remove, removeFirst: m.RemoveFirst, removeLast: m.RemoveLast,
 		isEmpty: m.IsEmpty, isFull: m.IsFull, clear: m.Clear, setMax: func(n int) { m.SetMax(n) }, sort: m.Sort,
 		keys: func() []int32 { return drainInt(m.Keys(), m.Size()) }, keyArray: m.KeyArray,
+		openKeys: func() func() []int32 {
+			en := m.Keys()
+			return func() []int32 { return drainInt(en, m.Size()) }
+		},
 		values:  func() ([]int32, string) { return drainInt(m.Values(), m.Size()), "" },
 		entries: func() []interface{} { return drainEnum(m.Entries(), m.Size()) },
+		openEntries: func() func() []interface{} {
+			en := m.Entries()
+			return func() []interface{} { return drainEnum(en, m.Size()) }
+		},
 		toK:     toI32, kTok: i32Tok, less: lessI32, toW: w32, wTok: i32Tok}
 	return a.inst()
 }
@@ -548,8 +606,16 @@ func newLongLongLinkedMap(c ctor) *inst {
 		firstValue: m.GetFirstValue, lastValue: m.GetLastValue, remove: m.Remove, removeFirst: m.RemoveFirst, removeLast: m.RemoveLast,
 		isEmpty: m.IsEmpty, isFull: m.IsFull, clear: m.Clear, setMax: func(n int) { m.SetMax(n) }, sort: m.Sort,
 		keys: func() []int64 { return drainLong(m.Keys(), m.Size()) }, keyArray: m.KeyArray,
+		openKeys: func() func() []int64 {
+			en := m.Keys()
+			return func() []int64 { return drainLong(en, m.Size()) }
+		},
 		values:  func() ([]int64, string) { return drainLong(m.Values(), m.Size()), "" },
 		entries: func() []interface{} { return drainEnum(m.Entries(), m.Size()) },
+		openEntries: func() func() []interface{} {
+			en := m.Entries()
+			return func() []interface{} { return drainEnum(en, m.Size()) }
+		},
 		toK:     toI64, kTok: i64Tok, less: lessI64, toW: w64, wTok: i64Tok}
 	return a.inst()
 }
@@ -562,8 +628,16 @@ func newIntFloatLinkedMap(c ctor) *inst {
 		firstValue: m.GetFirstValue, lastValue: m.GetLastValue, remove: m.Remove, removeFirst: m.RemoveFirst, removeLast: m.RemoveLast,
 		isEmpty: m.IsEmpty, isFull: m.IsFull, clear: m.Clear, setMax: func(n int) { m.SetMax(n) }, sort: m.Sort,
 		keys: func() []int32 { return drainInt(m.Keys(), m.Size()) }, keyArray: m.KeyArray,
+		openKeys: func() func() []int32 {
+			en := m.Keys()
+			return func() []int32 { return drainInt(en, m.Size()) }
+		},
 		values:  func() ([]float32, string) { return drainFloat(m.Values(), m.Size()), "" },
 		entries: func() []interface{} { return drainEnum(m.Entries(), m.Size()) },
+		openEntries: func() func() []interface{} {
+			en := m.Entries()
+			return func() []interface{} { return drainEnum(en, m.Size()) }
+		},
 		toK:     toI32, kTok: i32Tok, less: lessI32, toW: wf32, wTok: f32Tok}
 	return a.inst()
 }
@@ -576,8 +650,16 @@ func newLongFloatLinkedMap(c ctor) *inst {
 		firstValue: m.GetFirstValue, lastValue: m.GetLastValue, remove: m.Remove, removeFirst: m.RemoveFirst, removeLast: m.RemoveLast,
 		isEmpty: m.IsEmpty, isFull: m.IsFull, clear: m.Clear, setMax: func(n int) { m.SetMax(n) }, sort: m.Sort,
 		keys: func() []int64 { return drainLong(m.Keys(), m.Size()) }, keyArray: m.KeyArray,
+		openKeys: func() func() []int64 {
+			en := m.Keys()
+			return func() []int64 { return drainLong(en, m.Size()) }
+		},
 		values:  func() ([]float32, string) { return drainFloat(m.Values(), m.Size()), "" },
 		entries: func() []interface{} { return drainEnum(m.Entries(), m.Size()) },
+		openEntries: func() func() []interface{} {
+			en := m.Entries()
+			return func() []interface{} { return drainEnum(en, m.Size()) }
+		},
 		toK:     toI64, kTok: i64Tok, less: lessI64, toW: wf32, wTok: f32Tok}
 	return a.inst()
 }
@@ -593,6 +675,10 @@ func newStringIntLinkedMap(c ctor) *inst {
 		removeFirst: func() int32 { return asV(m.RemoveFirst()) }, removeLast: func() int32 { return asV(m.RemoveLast()) },
 		isEmpty: m.IsEmpty, isFull: m.IsFull, clear: m.Clear, setMax: func(n int) { m.SetMax(n) }, sort: m.Sort,
 		keys: func() []string { return drainStr(m.Keys(), m.Size()) }, keyArray: m.KeyArray,
+		openKeys: func() func() []string {
+			en := m.Keys()
+			return func() []string { return drainStr(en, m.Size()) }
+		},
 		values: func() ([]int32, string) {
 			var out []int32
 			note := ""
@@ -606,6 +692,10 @@ func newStringIntLinkedMap(c ctor) *inst {
 			return out, note
 		},
 		entries: func() []interface{} { return drainEnum(m.Entries(), m.Size()) },
+		openEntries: func() func() []interface{} {
+			en := m.Entries()
+			return func() []interface{} { return drainEnum(en, m.Size()) }
+		},
 		toK:     toStr, kTok: strTok, less: lessStr, toW: w32, wTok: i32Tok}
 	return a.inst()
 }
@@ -621,6 +711,10 @@ func newStringLongLinkedMap(c ctor) *inst {
 		removeFirst: func() int64 { return asV(m.RemoveFirst()) }, removeLast: func() int64 { return asV(m.RemoveLast()) },
 		isEmpty: m.IsEmpty, isFull: m.IsFull, clear: m.Clear, setMax: func(n int) { m.SetMax(n) }, sort: m.Sort,
 		keys: func() []string { return drainStr(m.Keys(), m.Size()) }, keyArray: m.KeyArray,
+		openKeys: func() func() []string {
+			en := m.Keys()
+			return func() []string { return drainStr(en, m.Size()) }
+		},
 		values: func() ([]int64, string) {
 			var out []int64
 			note := ""
@@ -634,6 +728,10 @@ func newStringLongLinkedMap(c ctor) *inst {
 			return out, note
 		},
 		entries: func() []interface{} { return drainEnum(m.Entries(), m.Size()) },
+		openEntries: func() func() []interface{} {
+			en := m.Entries()
+			return func() []interface{} { return drainEnum(en, m.Size()) }
+		},
 		toK:     toStr, kTok: strTok, less: lessStr, toW: w64, wTok: i64Tok}
 	return a.inst()
 }
@@ -656,6 +754,7 @@ type setAPI[K any] struct {
 	kTok                    func(K) string
 	less                    func(a, b K) bool
 	retTok                  func(interface{}) string // the key an operation returned
+	openKeys    func() func() []K
 }
 
 // setRet renders the result of put/remove on a set: the key itself when the element was present,
@@ -748,6 +847,17 @@ func newLinkedSet(c ctor) *inst {
 			}
 			return out
 		},
+		openKeys: func() func() []hmap.LinkedKey {
+			en := m.Keys()
+			return func() []hmap.LinkedKey {
+				var out []hmap.LinkedKey
+				for _, x := range drainEnum(en, m.Size()) {
+					lk, _ := x.(hmap.LinkedKey)
+					out = append(out, lk)
+				}
+				return out
+			}
+		},
 		keyArray: m.KeyArray,
 		toK:      func(k key) hmap.LinkedKey { return &hk{id: k.i, mode: c.hmode} }, kTok: objKeyTok, less: lessObj,
 		retTok: func(x interface{}) string {
@@ -763,6 +873,10 @@ func newIntLinkedSet(c ctor) *inst {
 		first: m.GetFirst, last: m.GetLast, remove: m.Remove, removeFirst: m.RemoveFirst, removeLast: m.RemoveLast,
 		isEmpty: m.IsEmpty, isFull: m.IsFull, clear: m.Clear, setMax: func(n int) { m.SetMax(n) }, sort: m.Sort,
 		keys:     func() []int32 { return drainInt(m.Keys(), m.Size()) },
+		openKeys: func() func() []int32 {
+			en := m.Keys()
+			return func() []int32 { return drainInt(en, m.Size()) }
+		},
 		keyArray: m.KeyArray,
 		toK:      toI32, kTok: i32Tok, less: lessI32,
 		retTok: func(x interface{}) string {
@@ -780,6 +894,10 @@ func newStringLinkedSet(c ctor) *inst {
 		first: m.GetFirst, last: m.GetLast, remove: m.Remove, removeFirst: m.RemoveFirst, removeLast: m.RemoveLast,
 		isEmpty: m.IsEmpty, isFull: m.IsFull, clear: m.Clear, setMax: func(n int) { m.SetMax(n) }, sort: m.Sort,
 		keys:     func() []string { return drainStr(m.Keys(), m.Size()) },
+		openKeys: func() func() []string {
+			en := m.Keys()
+			return func() []string { return drainStr(en, m.Size()) }
+		},
 		keyArray: m.GetArray,
 		toK:      toStr, kTok: strTok, less: lessStr,
 		retTok: func(x interface{}) string {
